@@ -1,6 +1,7 @@
 import MakoModel.Path.Below
 import MakoModel.Path.Idem
 import MakoModel.Path.HistoryLemmas
+import MakoModel.Generated.PathCfg
 /-!
 # C09 – template lookup never escapes its configured directories
 
@@ -228,6 +229,31 @@ example :
        .del "/srv/root/index.html".toList, .get "//index.html".toList, .has "index.html".toList]
     = [.rejected, .answer false, .served "/srv/root/index.html".toList, .none,
        .served "/srv/root/index.html".toList, .none, .notFound, .answer false] := by decide
+
+/-! ## Structure of the code the state machine stands for (regenerated from /repo on every run)
+
+`tools/regen_pathcfg.py` reads `Template.__init__` and `mako/lookup.py` and emits the facts below as constants; each
+theorem is a named obligation that stops checking when an edit changes the structure. -/
+
+open MakoModel.Generated in
+/-- **uri_check_unconditional_and_first.** The URI check of `Template.__init__` is a statement of its own at the top
+level of the constructor – under no condition on `module_filename`, `module_directory` or any other option – and it
+comes before every statement that compiles, reads or loads anything: the model's `getTemplate` may apply
+`templateCheck` to every construction and no content is read for a rejected URI. -/
+theorem uri_check_unconditional_and_first :
+    PathCfg.uriCheckTopLevel = true ∧ PathCfg.uriCheckBeforeCompile = true := by decide
+
+open MakoModel.Generated in
+/-- **has_template_is_get_template.** `has_template` is "`get_template` succeeds" (not overridden by
+`TemplateLookup`), which is what `lstep … (.has uri)` models. -/
+theorem has_template_is_get_template : PathCfg.hasTemplateViaGet = true := by decide
+
+open MakoModel.Generated in
+/-- **lookup_returns_only_loaded_templates.** `get_template`, `_check` and `_load` return nothing but collection
+entries of the requested URI and templates constructed – with `uri=uri`, hence through the URI check – for it. -/
+theorem lookup_returns_only_loaded_templates :
+    PathCfg.lookupTemplatesCarryUri = true ∧ PathCfg.getTemplateReturns = true ∧ PathCfg.loadReturns = true := by
+  decide
 
 /-! ## Non-vacuity and sanity: concrete instances (kernel evaluation of the model) -/
 
